@@ -59,6 +59,7 @@ fn battery(d: &mut Ddnnf, s: &mut String, sample_seed: u64) {
     writeln!(s, "{}", circ_line(d)).unwrap();
     writeln!(s, "b nvars {}", nv).unwrap();
     writeln!(s, "b root0 {}", (d.inter_graph.root.index() == 0) as u8).unwrap();
+    writeln!(s, "b fromcnf {}", d.inter_graph.from_cnf as u8).unwrap();
     let rc = match guarded(|| d.rc()) {
         Ok(r) => {
             writeln!(s, "b rc {}", r).unwrap();
@@ -646,18 +647,19 @@ fn run_histories(out: &mut dyn Write) {
 /// control histories: replayed on every run so that each finding is re-established (or seen to
 /// be gone) independently of the random part.
 const CORPUS: &str = "\
-# K3 new variable on an nnf-loaded model (c2d): ignored
+# F27 (was K3) new variable on an nnf-loaded model (c2d): unit path, conjoined at a new and root
 c2d 1 : nnf 5 4 1 ; A 0 ; L 1 ; L -1 ; O 1 2 1 2 ; A 2 0 3 :: add 2
 # K4 dead branch after a unit edit: the core under-reported (repaired by F22; kept as a regression case)
 d4 3 : o 1 0 ; o 2 0 ; t 3 0 ; f 4 0 ; 1 3 1 2 3 0 ; 1 2 -1 0 ; 2 4 2 0 ; 2 3 -2 3 0 :: add 2
 # K8 removal on the unit-propagated stored clause list
 cnf 4 : -4 ; -4 3 ; -3 -1 ; -2 :: rmv -4
 cnf 2 : 1 2 :: add -1 :: rmv -1
-# K20 nnf-loaded d4 model with root = node 0: the model is replaced by the clause alone
+# F27 / F28 (was K20) nnf-loaded d4 model with root = node 0: unit path; a non-unit clause is refused
 d4 1 : o 1 0 ; t 2 0 ; 1 2 -1 0 :: add 2
-# K21 removal on an nnf-loaded model
+d4 1 : o 1 0 ; t 2 0 ; 1 2 -1 0 :: add -3 :: add 5
+# K21 removal on an nnf-loaded model: refused (Error) since F28, the previous answers are not restored
 d4 1 : o 1 0 ; t 2 0 ; 1 2 -1 0 :: add -1 :: rmv -1
-# K22 the stored clause list still contains an undone edit
+# F25 (was K22) an Undo restores the stored clause list
 cnf 2 : 1 2 :: add 1 -2 :: rmv 1 -2 :: add -1 -2
 # F14 (was K23) two different clauses removed in one edit: holds since the repair
 cnf 2 : -1 2 ; -1 -2 :: rmv -1 2 ; rmv -2 -1
@@ -667,23 +669,25 @@ cnf 3 : -2 3 ; 1 -2 -3 ; 1 2 3 ; 2 -3 :: rmv 3 -2
 cnf 2 : 1 ; 2 :: add 1 3 ; rmv 1 :: rmv 1 3
 # F16 (was K26) unit add + removal: general path, the removal is applied
 cnf 2 : -1 :: add 2 ; rmv -1
-# K27 clause added to a CNF-loaded model without stored clauses: ignored (also a unit clause that
-# comes with a removal: general path since F16)
+# F24 (was K27) clause added to a CNF-loaded model without stored clauses: the edited CNF is compiled
 cnf 2 : :: add 1 2
 cnf 3 : :: rmv 3 -2 ; add 3
 # K28 unconstrained feature mentioned by a subsumed clause + sub-DAG replacement
 cnf 2 : 2 -1 ; 1 -2 :: add 3 2 -1 :: add 1 -2
-# K29 unit clause over a new variable answered by sub-DAG replacement
+# F27 (was K29) unit clause over a new variable: unit path
 cnf 3 : -1 2 3 :: add 4
 cnf 3 : -1 2 3 :: add 5
-# K30 sub-DAG replacement after a unit edit (control: the unit clause in the loaded CNF)
+# K30 sub-DAG replacement after a unit edit (first history: right since F26; control: the unit clause
+# in the loaded CNF; then the two histories that still fail)
 cnf 3 : -2 -3 ; 1 2 3 :: add -2 :: add -3 -2
 cnf 3 : -2 -3 ; 1 2 3 ; -2 :: add -3 -2
-# K31 cyclic graph after unit edits
+cnf 4 : 2 -1 ; 3 2 :: add 4 :: rmv 2 3
+cnf 3 : -1 2 3 :: add -3 :: add -2 ; add -2
+# F26 (was K31) cyclic graph after unit edits: no panic any more (what is left is K8)
 cnf 3 : -1 2 ; -1 -2 -3 :: add 1 :: add -3 :: rmv -3
-# K32 second unit edit through a recycled node index
+# F26 (was K32) second unit edit through a recycled node index
 cnf 4 : -1 3 ; 1 -2 -3 :: rmv -1 3 :: add 4 :: rmv 1 -3 -2 :: add 4
-# K33 panic in get_literals after an Undo
+# F25 (was K33) panic in get_literals after an Undo
 cnf 3 : -1 2 3 ; -3 ; -1 -2 -3 :: add 1 3 2 :: rmv 1 3 2 :: add 3 -2
 # F17 (was K34) inverse of an older edit after a unit edit: not answered Undo any more
 cnf 3 : -1 3 ; 1 2 3 :: add 2 3 :: add -1 :: rmv 2 3
@@ -691,8 +695,7 @@ cnf 3 : -1 3 ; 1 2 3 :: add 2 3 :: add -1 :: rmv 2 3
 # contradicts the added unit clause, the stored list is unsatisfiable although the formula is not
 cnf 2 : 2 ; 1 -2 :: rmv 1 -2 ; add -1
 cnf 2 : 2 ; 1 -2 :: rmv 1 -2 ; add -1 ; add 2
-# K38 Recompile adjusts the stored clause list twice: a clause shortened to a removed clause is lost
-# (second history: two added clauses, general path also before F16)
+# F23 (was K38) Recompile adjusted the stored clause list twice: a clause shortened to a removed clause was lost
 cnf 2 : -1 -2 :: rmv -1 ; add 2
 cnf 2 : -1 -2 :: rmv -1 ; add 2 ; add 1 2
 cnf 3 : -1 -2 -3 ; -1 -2 :: rmv -1 -2 ; add 3
